@@ -21,6 +21,10 @@ Rewrites (see DESIGN.md 1.2):
  R6  annotations and docstrings dropped
  R7  decorators are kept and evaluated in the supplied environment, except those listed in
      ``drop_decorators`` (``lru_cache``)
+ R9  auto-inline of helpers without a contract of their own (see Extracted.compile_into)
+ R10 (on request) ``f(a, *xs, k=v)`` becomes ``__vc.call_star(f, (a,), xs, {'k': v})``
+ R11 (on request) ``def f(a, *args, **kwargs)`` becomes ``def f(a, args, kwargs)``
+ R12 (on request) a nested ``def`` named by the sidecar is removed; its name resolves to the sidecar's stub
 """
 from __future__ import annotations
 
@@ -95,8 +99,9 @@ def _assigned_names(nodes):
 
 
 class _Rewriter(ast.NodeTransformer):
-    def __init__(self, nonlocals, cut_loops, native_loops, cut_comps, fname, sym_containers=False):
+    def __init__(self, nonlocals, cut_loops, native_loops, cut_comps, fname, sym_containers=False, star_calls=False):
         self.sym_containers = sym_containers
+        self.star_calls = star_calls
         self.nonlocals = set(nonlocals)
         self.cut_loops = cut_loops  # ordinal -> key
         self.native_loops = native_loops if native_loops == "all" else set(native_loops)
@@ -254,6 +259,16 @@ class _Rewriter(ast.NodeTransformer):
         self.generic_visit(node)
         if self.sym_containers and isinstance(node.func, ast.Name) and node.func.id == "set" and not node.args and not node.keywords:
             return self._vc_call("new_set", node)
+        # R10 (on request): a call with ONE trailing ``*iterable`` argument and plain keywords becomes
+        #   __vc.call_star(func, (positional...), iterable, {keywords})   so that a symbolic-length sequence can be passed on
+        if self.star_calls and node.args and isinstance(node.args[-1], ast.Starred) and not any(isinstance(a, ast.Starred) for a in node.args[:-1]) \
+                and all(k.arg is not None for k in node.keywords):
+            call = ast.Call(
+                func=ast.Attribute(value=ast.Name(id="__vc", ctx=ast.Load()), attr="call_star", ctx=ast.Load()),
+                args=[node.func, ast.Tuple(elts=list(node.args[:-1]), ctx=ast.Load()), node.args[-1].value,
+                      ast.Dict(keys=[ast.Constant(value=k.arg) for k in node.keywords], values=[k.value for k in node.keywords])],
+                keywords=[])
+            return ast.fix_missing_locations(ast.copy_location(call, node))
         return node
 
     # R4 ---------------------------------------------------------------------------------
@@ -408,7 +423,7 @@ def locals_snapshot():
 
 
 def extract(relpath, qualname, *, cut_loops=None, native_loops=(), cut_comps=False, drop_decorators=("lru_cache",), keep_nonlocal=False,
-            sym_containers=False):
+            sym_containers=False, star_calls=False, explicit_varargs=False, drop_nested=()):
     import copy
 
     tree, src, path = module_ast(relpath)
@@ -416,6 +431,13 @@ def extract(relpath, qualname, *, cut_loops=None, native_loops=(), cut_comps=Fal
     if not isinstance(node, ast.FunctionDef):
         raise ExtractionError(f"{qualname} is not a function")
     orig_text = ast.unparse(node)
+    if drop_nested:
+        # R12 (on request): nested function definitions named by the sidecar are removed from the body; the name then resolves to the
+        # stub the sidecar supplies (which carries the contract proved for that nested function by its own unit)
+        found = [st.name for st in node.body if isinstance(st, ast.FunctionDef) and st.name in drop_nested]
+        if sorted(found) != sorted(drop_nested):
+            raise ExtractionError(f"{relpath}:{qualname}: nested definitions {sorted(set(drop_nested) - set(found))} not found")
+        node.body = [st for st in node.body if not (isinstance(st, ast.FunctionDef) and st.name in drop_nested)]
     nonlocals = [] if keep_nonlocal else [n for st in ast.walk(node) if isinstance(st, ast.Nonlocal) for n in st.names]
     decos = []
     for d in node.decorator_list:
@@ -424,8 +446,20 @@ def extract(relpath, qualname, *, cut_loops=None, native_loops=(), cut_comps=Fal
             continue
         decos.append(d)
     node.decorator_list = decos
-    rw = _Rewriter(nonlocals, cut_loops if cut_loops == "auto" else dict(cut_loops or {}), native_loops, cut_comps, f"{relpath}:{qualname}", sym_containers)
+    rw = _Rewriter(nonlocals, cut_loops if cut_loops == "auto" else dict(cut_loops or {}), native_loops, cut_comps, f"{relpath}:{qualname}", sym_containers, star_calls)
     node = rw.visit(node)
+    if explicit_varargs:
+        # R11 (on request): ``def f(a, *args, **kwargs)`` becomes ``def f(a, args, kwargs)`` - the caller (the sidecar) passes the
+        # sequence / mapping objects that CPython would have built, which may then be symbolic
+        a = node.args
+        if a.vararg is not None:
+            a.args.append(ast.arg(arg=a.vararg.arg))
+            a.vararg = None
+        if a.kwarg is not None:
+            a.args.append(ast.arg(arg=a.kwarg.arg))
+            a.kwarg = None
+        if a.kwonlyargs:
+            raise ExtractionError(f"{relpath}:{qualname}: explicit_varargs with keyword-only parameters")
     missing = [] if cut_loops == "auto" else [k for k in (cut_loops or {}) if k not in rw.loops_seen]
     if missing:
         raise ExtractionError(f"{relpath}:{qualname}: sidecar names loops {missing} that no longer exist")
